@@ -219,6 +219,20 @@ impl CliRef {
     }
     /// kind: 0 connect, 1 createStream for play, 2 createStream for publish
     fn on_request(&mut self, ok: bool, kind: u8) { if ok { self.outstanding.insert(self.next_tid, kind); self.next_tid += 1; } }
+    /// C10: requests carry consecutive transaction ids, counted over the requests that were ACCEPTED (a refused call
+    /// changes nothing); `shown` is the call's printed result, read after `on_request`
+    fn judge_tid(&mut self, shown: &str) -> Option<String> {
+        if shown.starts_with("err:") { return None; }
+        let i = shown.find(".amf(s")?;
+        let rest = &shown[i..];
+        let j = rest.find(";n")?;
+        let hex = rest.get(j + 2..j + 18)?;
+        let bits = u64::from_str_radix(hex, 16).ok()?;
+        let carried = f64::from_bits(bits);
+        let expected = (self.next_tid - 1) as f64;
+        if carried != expected { return Some(format!("request-carried-transaction-id-{}-expected-{}", carried, expected)); }
+        None
+    }
     /// C10: a request call is accepted exactly in the phase the workflow allows it in, and refused with the state error otherwise
     fn judge_call(&mut self, what: &str, allowed_in: u8, res: &str) -> Option<String> {
         let p = self.phase?;
@@ -669,6 +683,7 @@ fn op_inner(st: &mut SessSt, toks: &[&str]) -> Option<String> {
             st.cli_ref.on_request(rr.is_ok(), 0);
             let mut o = match rr { Err(e) => cli_err(&e), Ok(r) => { let rs = [r]; record_cli(&mut st.cli_track, &rs, CLI_DROP.with(|d| d.get())); show_cli_results(&mut st.cli_out, &rs) } };
             if let Some(v) = st.cli_ref.judge_call("request_connection", 0, &o) { o.push_str(" ORACLE-FAIL:"); o.push_str(&v); }
+            if let Some(v) = st.cli_ref.judge_tid(&o) { o.push_str(" ORACLE-FAIL:"); o.push_str(&v); }
             o
         }
         ["cli.play", now, key] => {
@@ -677,6 +692,7 @@ fn op_inner(st: &mut SessSt, toks: &[&str]) -> Option<String> {
             st.cli_ref.on_request(rr.is_ok(), 1);
             let mut o = match rr { Err(e) => cli_err(&e), Ok(r) => { let rs = [r]; record_cli(&mut st.cli_track, &rs, CLI_DROP.with(|d| d.get())); show_cli_results(&mut st.cli_out, &rs) } };
             if let Some(v) = st.cli_ref.judge_call("request_playback", 1, &o) { o.push_str(" ORACLE-FAIL:"); o.push_str(&v); }
+            if let Some(v) = st.cli_ref.judge_tid(&o) { o.push_str(" ORACLE-FAIL:"); o.push_str(&v); }
             o
         }
         ["cli.publish", now, key, ty] => {
@@ -686,6 +702,7 @@ fn op_inner(st: &mut SessSt, toks: &[&str]) -> Option<String> {
             st.cli_ref.on_request(rr.is_ok(), 2);
             let mut o = match rr { Err(e) => cli_err(&e), Ok(r) => { let rs = [r]; record_cli(&mut st.cli_track, &rs, CLI_DROP.with(|d| d.get())); show_cli_results(&mut st.cli_out, &rs) } };
             if let Some(v) = st.cli_ref.judge_call("request_publishing", 1, &o) { o.push_str(" ORACLE-FAIL:"); o.push_str(&v); }
+            if let Some(v) = st.cli_ref.judge_tid(&o) { o.push_str(" ORACLE-FAIL:"); o.push_str(&v); }
             o
         }
         ["cli.stop", now, what] => {
@@ -761,7 +778,16 @@ fn ack_run(server: bool, w: u32, sizes: &[usize], rewin: Option<(usize, u32)>) -
         boundaries.push(pad.len());
     }
     enum S { Srv(ServerSession), Cli(ClientSession) }
-    let mut sess = if server { S::Srv(ServerSession::new(ServerSessionConfig::new()).unwrap().0) } else { S::Cli(ClientSession::new(ClientSessionConfig::new()).unwrap().0) };
+    // the session's OWN configured window (what it asks of its peer) is irrelevant to what it acknowledges: vary it
+    // around the announced one so that a session which mixes the two up is seen
+    let own: Option<u32> = match w % 4 { 0 => Some(1), 1 => Some((w / 2).max(1)), 2 => None, _ => Some(w.saturating_add(1000)) };
+    let mut sess = if server {
+        let mut c = ServerSessionConfig::new(); if let Some(o) = own { c.window_ack_size = o; }
+        S::Srv(ServerSession::new(c).unwrap().0)
+    } else {
+        let mut c = ClientSessionConfig::new(); if let Some(o) = own { c.window_ack_size = o; }
+        S::Cli(ClientSession::new(c).unwrap().0)
+    };
     let feed = |sess: &mut S, data: &[u8]| -> Result<Vec<u32>, String> {
         let mut acks = vec![];
         let pk: Vec<Packet> = match sess {
